@@ -37,6 +37,14 @@ func Root() string {
 	return "/verif"
 }
 
+// Out is where evidence, replays and shard files go: Root(), or VERIF_OUT for runs against a mutant tree.
+func Out() string {
+	if o := os.Getenv("VERIF_OUT"); o != "" {
+		return o
+	}
+	return Root()
+}
+
 // Finding is one entry of known_findings.json.
 type Finding struct {
 	ID        string `json:"id"`
@@ -270,7 +278,7 @@ func (c *Collector) Violation() {
 		return
 	}
 	sum := sha256.Sum256(append([]byte(f.sub), f.caseJSON...))
-	dir := filepath.Join(Root(), "replays", c.ID)
+	dir := filepath.Join(Out(), "replays", c.ID)
 	os.MkdirAll(dir, 0o755)
 	p := filepath.Join(dir, hex.EncodeToString(sum[:6])+".json")
 	b, _ := json.MarshalIndent(Replay{Property: c.ID, Sub: f.sub, Error: f.err, Case: f.caseJSON}, "", " ")
@@ -371,13 +379,13 @@ func (c *Collector) Finish() {
 	if e.Assumptions == nil {
 		e.Assumptions = []string{}
 	}
-	path := filepath.Join(Root(), "evidence", c.ID+".json")
+	path := filepath.Join(Out(), "evidence", c.ID+".json")
 	if os.Getenv("VERIF_SHARD") != "" {
 		for k := range c.keys {
 			e.Keys = append(e.Keys, k)
 		}
 		sort.Strings(e.Keys)
-		path = filepath.Join(Root(), ".work", "shards", fmt.Sprintf("%s.%d.json", c.ID, c.Shard))
+		path = filepath.Join(os.Getenv("VERIF_SHARD_DIR"), fmt.Sprintf("%s.%d.json", c.ID, c.Shard))
 	}
 	os.MkdirAll(filepath.Dir(path), 0o755)
 	b, _ := json.MarshalIndent(e, "", " ")
